@@ -18,6 +18,10 @@ claim("C14", "threshold/constant table extraction from the CFG of flushFrame and
       "Encoder arms (>=65536 → 127+u64 BE at framePos 0; 126..65535 → 126+u16 BE at framePos 6; else 7-bit at framePos 8; framePos+headerLen == maxFrameHeaderSize) and decoder arms (read 1/2/8, mask 0x7f, BigEndian) are read off the CFG with constant evaluation and compared with the Engine.IO framing table and with each other; the decoder has no rejection path other than error propagation and the read limit; one frame per message (shared with C13). Equality with a reference encoder for every (kind,length) follows by a pencil argument, not machine-proved.",
       TB, "DESIGN.md §3 C14")
 
+claim("C15", "static call graph reachability (panic sites), dominance of index uses by error tests, who-may-write field rules, threshold extraction, monotonicity of the sticky-error field on go/cfg",
+      "Static rules over webtransport/conn.go read paths: the only panic reachable from NextReader/ReadMessage/messageReader.Read is the documented repeated-read guard (>=1000); every use of header bytes is dominated by the err==nil edge of its read(n) and fits in n; readRemaining is written only by setReadRemaining which rejects negatives and whose callers propagate the error; the reader clamps to readRemaining and skips leftovers; the read limit (accumulate, overflow test, limit test → CloseWithError+ErrReadLimit) dominates every successful data-frame return; readErr is monotone (first failure or EOF→unexpected-EOF refinement) and returned by the error exit; stale readers are inert. Totality over every byte stream as a run-time fact is not decided.",
+      TB, "DESIGN.md §3 C15")
+
 UNDER_CONSTRUCTION = "static rule set designed in DESIGN.md §3 but its checker is not built yet in this revision; not claimed until it is"
 
 def main():
